@@ -141,7 +141,7 @@ func (c *ClientFingerprintConfiguration) marshal(config *Config) ([]byte, error)
 			if err != nil {
 				return nil, err
 			}
-			copy(head[start:start+4], t)
+			copy(head[start:start+4], t[4:]) // low 32 bits of the big-endian int64
 			start = start + 4
 		}
 		_, err := io.ReadFull(config.rand(), head[start:38])
